@@ -187,7 +187,9 @@ def run_history(res, mdrv, cfg, history, audits, tag, variant='fixed', count=Tru
             elif h[0] == 'cb':
                 L.call(h[1], h[2])
             elif h[0] == 'crash' and I.model_crash(h[1], h[2], 0, h[3], wk) is not None:
-                L.crash_in(h[1], h[2], h[3])       # (a callback that writes nothing cannot be torn)
+                anomaly = L.crash_in(h[1], h[2], h[3])       # (a callback that writes nothing cannot be torn)
+                if anomaly:
+                    res.fail(PROP, anomaly, dict(replay, history=history[:i + 1]), key='not-append-only')
             after = L.observe()
             alive = L.handler is not None
             m = mobs[idx[i]] if idx[i] is not None else empty
